@@ -16,7 +16,7 @@ RULE = ('(a) fault points, ENUMERATED per score: a complete score-partwise built
         'shape: parts x measures x notes, non-ASCII / non-BMP texts); every node of the tree in turn is made to fail '
         'its check (a child removed so that a required one is missing, or a required attribute removed) and, '
         'separately, an exception is injected at the k-th call of xml.etree.ElementTree.indent (the stdlib helper the '
-        'serialiser calls once per element) for EVERY k; each fault x prior destination state in {empty file, '
+        'serialiser calls once per element) for EVERY k, and the open() of the destination is refused by the operating system (OSError injected at builtins.open); each fault x prior destination state in {empty file, '
         'previous valid document, arbitrary bytes}.  Oracle: write() raises and the destination bytes are exactly '
         'what they were.  (b) success, for every prior state in {absent, empty, shorter valid document, arbitrary '
         'bytes, a document longer than the new one}: on return the file holds the XML declaration + to_string() encoded UTF-8 and '
@@ -123,6 +123,21 @@ def attempt_write(sc, prior, inject_at=None):
             os.unlink(p)
         if inject_at is None:
             r = call(sc.write, p)
+        elif inject_at == 'open':
+            # the operating system refuses to open the destination (descriptor limit, permissions, ...): nothing
+            # has been written, so nothing may have changed
+            import builtins
+            real_open = builtins.open
+
+            def refusing(file, mode='r', *a, **k):
+                if file == p and ('w' in mode or 'a' in mode or 'x' in mode or '+' in mode):
+                    raise OSError(24, 'Too many open files (injected)', p)
+                return real_open(file, mode, *a, **k)
+            builtins.open = refusing
+            try:
+                r = call(sc.write, p)
+            finally:
+                builtins.open = real_open
         else:
             real = ET.indent
             count = [0]
@@ -175,6 +190,10 @@ def check_fault(spec, fault, prior):
         if not break_node(sc, tuple(fault[1]), fault[2]):
             return None, 'no-breakage'
         r, before, after = attempt_write(sc, prior)
+    elif fault[0] == 'open':
+        r, before, after = attempt_write(sc, prior, inject_at='open')
+        if r.ok:
+            return None, 'fault-not-reached'      # the library did not open the path through builtins.open
     else:
         r, before, after = attempt_write(sc, prior, inject_at=fault[1])
     if r.ok:
@@ -183,7 +202,8 @@ def check_fault(spec, fault, prior):
         return F('write-succeeded-on-invalid-tree', inp, 'write returned', 'raises'), 'run'
     if after != before:
         return F('destination-changed-by-failed-write', inp,
-                 {'exception': r.etype, 'before_len': len(before), 'after_len': len(after), 'after_head': repr(after[:60])},
+                 {'exception': r.etype, 'before_len': len(before),
+                  'after_len': len(after) if after is not None else 'FILE DELETED', 'after_head': repr((after or b'')[:60])},
                  'destination bytes untouched', r.site), 'run'
     return None, 'run'
 
@@ -352,7 +372,7 @@ def run_shard(ctx, shard, acc):
             paths = [list(p) for _, p in nodes_of(sc)]
             n_indent = count_indent_calls(sc)
             faults = [['node', p, how] for p in paths for how in ('child', 'attr')] + \
-                     [['inject', k] for k in range(1, n_indent + 1)]
+                     [['inject', k] for k in range(1, n_indent + 1)] + [['open']]
             acc.extras['fault_points'] = acc.extras.get('fault_points', 0) + len(faults)
             for fault in faults:
                 for prior in ('empty', 'valid', 'bytes'):
@@ -360,7 +380,7 @@ def run_shard(ctx, shard, acc):
                     if status != 'run':
                         acc.count(status)
                         break
-                    nt = prior != 'empty' and (fault[0] == 'inject' and fault[1] > 1 or fault[0] == 'node' and fault[1])
+                    nt = prior != 'empty' and (fault[0] == 'inject' and fault[1] > 1 or fault[0] == 'node' and fault[1] or fault[0] == 'open')
                     acc.case({'mode': 'fault', 'spec': spec, 'fault': fault, 'prior': prior}, bool(nt), 0)
                     acc.count('fault-' + fault[0])
                     if f:
